@@ -1,3 +1,4 @@
 From Coq Require Import Extraction ExtrOcamlBasic.
-From PV Require Import Base.Bytes Base.Outcome Base.DrvBase Model.ScriptNum Model.Push.
-Extraction "../ml/c12.ml" drv_base int_to_script_bytes int_from_script_bytes btc_compile_push_data btc_get_opcode.
+From PV Require Import Base.Bytes Base.Outcome Base.DrvBase Model.ScriptNum Model.Push Model.ScriptText.
+Extraction "../ml/c12.ml" drv_base int_to_script_bytes int_from_script_bytes btc_compile_push_data btc_get_opcode
+  disassemble compile.
